@@ -1148,10 +1148,10 @@ class URL:
         netloc = self._netloc
         if not encoded:
             path = PATH_QUOTER(path)
-            if netloc:
-                path = normalize_path(path) if "." in path else path
         if path and path[0] != "/":
             path = f"/{path}"
+        if not encoded and netloc:
+            path = normalize_path(path) if "." in path else path
         query = self._query if keep_query else ""
         fragment = self._fragment if keep_fragment else ""
         return from_parts(self._scheme, netloc, path, query, fragment)
